@@ -74,7 +74,9 @@ K("awkward_quick_sort",
   calls={"quick_sort": "quick_sort"})
 
 SORTED_OFFSETS = "forall(a, 0, offsetslength, forall(b, a, offsetslength, 0 <= offsets[a] and offsets[a] <= offsets[b] and offsets[b] <= length))"
-LOCAL = "forall(s, %s, offsetslength - 1, forall(j, 0, offsets[s + 1] - offsets[s], toptr[offsets[s] + j] == j))"
+# (written over the position p itself, not over offsets[s] + j: array terms indexed by a bound variable give the
+#  solver usable triggers)
+LOCAL = "forall(s, %s, offsetslength - 1, forall(p, offsets[s], offsets[s + 1], toptr[p] == p - offsets[s]))"
 
 K("awkward_quick_argsort",
   extents={"toptr": "length", "fromptr": "length", "tmpbeg": "maxlevels", "tmpend": "maxlevels", "offsets": "offsetslength"},
@@ -84,7 +86,7 @@ K("awkward_quick_argsort",
       # initialisation: every list window holds its local positions 0, 1, 2, ...
       "L0": ["0 <= i", LOCAL.replace("%s, offsetslength - 1", "0, i")],
       "L0.0": ["0 <= j", LOCAL.replace("%s, offsetslength - 1", "0, i"),
-               "forall(q, 0, j, toptr[offsets[i] + q] == q)"],
+               "forall(p, offsets[i], offsets[i] + j, toptr[p] == p - offsets[i])"],
       # the windows not yet sorted are as the initialisation left them (entry(...) = the state when the loop is entered)
       "L1": ["0 <= i", "forall(p, offsets[i], length, toptr[p] == entry(toptr[p]))"],
       "L2": ["0 <= i", "forall(p, offsets[i], length, toptr[p] == entry(toptr[p]))"],
